@@ -68,6 +68,8 @@ def array_pool(pool, h, w, tier):
                 out.append(fs(("r%d" % i)[:w], "red"))
             elif variant == "gaps":
                 out.append(fs("") if i % 2 == 0 else ("s%d" % i)[:w])       # empty FmtStr rows and plain str rows
+            elif variant == "padded":
+                out.append(fs((("p%d" % i) + " " * w)[:w]))       # exactly as wide as the terminal, ending in plain blanks
             elif variant == "bg":
                 out.append(fs(("r%d" % i)[:max(1, w - 1)], bg="blue", bold=True))
             else:
@@ -80,6 +82,8 @@ def array_pool(pool, h, w, tier):
         if n:
             specs.append((0, n, "red-odd"))
             specs.append((0, n, "gaps"))
+        if n in (1, h):
+            specs.append((0, n, "padded"))
         if n >= h:
             specs.append((1, n, "plain"))
             specs.append((0, n, "full"))
@@ -178,8 +182,29 @@ def rule_semantic(src, rep, counts):
                     continue
                 jobs.append((h, w, i, j, k, (i + j + k) % 2 == 0, (i + k) % 3 != 0))
 
+    for (h, w) in sizes:
+        for k in range(len(initial_screens(h, w, rep.tier))):
+            jobs.append((h, w, "in place", None, k, k % 2 == 0, k % 3 != 0))
+
     def one(job):
         h, w, i, j, k, keep, hide = job
+        if i == "in place":
+            # the caller keeps ONE list and edits it between renders: the window must show what the list holds now
+            shared = [pool.fs("ab"[:w]), pool.fs("cd"[:w], "red")][:max(1, h - 1)]
+
+            def edit1():
+                shared[0] = pool.fs("xy"[:w], "bold")
+                return shared
+
+            def edit2():
+                shared[-1] = pool.fs("gh"[:w])
+                return shared
+            steps = [("a list L", lambda: shared, 1), ("the same list after L[0] = bold 'xy'", edit1, 1),
+                     ("the same list after its last row was replaced", edit2, 1), ("the same list, unchanged", lambda: shared, 1)]
+            try:
+                return run_history(it, h, w, initial_screens(h, w, rep.tier)[k], steps, keep, hide)
+            except AnalysisError as e:
+                return ("error", str(e), "")
         arrs = array_pool(pool, h, w, rep.tier)
         init = initial_screens(h, w, rep.tier)[k]
         steps = [(arrs[i][0], arrs[i][1], i % 2), (arrs[i][0], arrs[i][1], (i + 1) % 2), (arrs[j][0], arrs[j][1], (j + 1) % 2), (arrs[i][0], arrs[i][1], 0)]
